@@ -1,48 +1,62 @@
 (* C01 — wire format shared by the extraction entry points (Extract*.v).
 
-   input :  sysMaxCpu sysMaxMem defMaxCpu defMaxMem  k  then k records of 15 integers
-            tag a1 .. a14   (pod = id cpu mem nonPreemptible bound ignored; bound: 1 = has a node
-            and is not terminated)
+   The first integer of every input is D, the number of resource dimensions of the case (the
+   harness names them cpu, memory, then extended resources); everything below is for that D.
+
+   input :  D  sysMax(D) defMax(D)  k  then k records of L = 2D+11 integers
+            tag a1 .. a(L-1)   (pod = id request(D) nonPreemptible bound ignored; bound: 1 = has a
+            node and is not terminated)
               1 PodAdd      q pod
               2 PodUpdate   qnew qold newpod oldpod
               3 PodDelete   q pod
               4 Reserve     q pod
               5 Unreserve   q pod
               6 Migrate     qout qin pod
-              7 QuotaUpdate name parent isParent lend maxCpu maxMem minCpu minMem (weights: ignored)
+              7 QuotaUpdate name parent isParent lend max(D) min(D) (weights(D): ignored)
               8 QuotaDelete name
               9 Reset
              10 Node*       (cluster total only)
-             11 SetScaleMinEnabled flag | 12 SetClusterTotal cpu mem | 13 RefreshRuntime name
+             11 SetScaleMinEnabled flag | 12 SetClusterTotal amounts(D) | 13 RefreshRuntime name
                 (runtime / AutoScaleMin side only: OpNode, no effect on the accounting figures)
    observable: after every operation the summaries of all quotas in ascending name order:
-            nq, then per quota  name parent isParent lend max(2) min(2) request(2) childRequest(2)
-            selfRequest(2) nonPreemptibleRequest(2) selfNonPreemptibleRequest(2) used(2) selfUsed(2)
-            nonPreemptibleUsed(2) selfNonPreemptibleUsed(2) leak npods (podid assigned)* in id order;
+            nq, then per quota  name parent isParent lend max(D) min(D) request(D) childRequest(D)
+            selfRequest(D) nonPreemptibleRequest(D) selfNonPreemptibleRequest(D) used(D) selfUsed(D)
+            nonPreemptibleUsed(D) selfNonPreemptibleUsed(D) leak npods (podid assigned)* in id order;
             streams history and conc: followed by the root entry (GetQuotaSummary of
-            koordinator-root-quota): request(2) nonPreemptibleRequest(2) used(2) nonPreemptibleUsed(2). *)
+            koordinator-root-quota): request(D) nonPreemptibleRequest(D) used(D) nonPreemptibleUsed(D). *)
 From Coq Require Import List ZArith Bool.
-From Verif Require Import Lib.Wire Lib.Vec2 C01.Model C01.Spec C01.Root.
+From Verif Require Import Lib.Wire Lib.VecN C01.Model C01.Spec C01.Root.
 Import ListNotations.
 Open Scope Z_scope.
 
+Section WithDim.
+Context {D : Dim}.
+
 Definition nthZ (l : list Z) (i : nat) : Z := nth i l 0.
 
+(* a vector starting at position k of a record *)
+Definition dec_vec (l : list Z) (k : nat) : vec := vof_list (skipn k l).
+
+Definition pod_len : nat := (dim + 4)%nat.
+Definition rec_len : nat := (2 * dim + 11)%nat.
+
 Definition dec_pod (l : list Z) (k : nat) : pod :=
-  mkPod (nthZ l k) (nthZ l (k + 1), nthZ l (k + 2)) (zb (nthZ l (k + 3)))
-        (nthZ l (k + 4) =? 1) (zb (nthZ l (k + 5))).
+  mkPod (nthZ l k) (dec_vec l (k + 1)) (zb (nthZ l (k + 1 + dim)))
+        (nthZ l (k + 2 + dim) =? 1) (zb (nthZ l (k + 3 + dim))).
+
+Definition dec_qshape (r : list Z) : qshape :=
+  mkQ (nthZ r 1) (nthZ r 2) (zb (nthZ r 3)) (zb (nthZ r 4)) (dec_vec r 5) (dec_vec r (5 + dim)).
 
 Definition dec_op (r : list Z) : op :=
   let a := fun i => nthZ r i in
   match a 0%nat with
   | 1 => OpPodAdd (a 1%nat) (dec_pod r 2)
-  | 2 => OpPodUpdate (a 1%nat) (a 2%nat) (dec_pod r 3) (dec_pod r 9)
+  | 2 => OpPodUpdate (a 1%nat) (a 2%nat) (dec_pod r 3) (dec_pod r (3 + pod_len))
   | 3 => OpPodDelete (a 1%nat) (dec_pod r 2)
   | 4 => OpReserve (a 1%nat) (dec_pod r 2)
   | 5 => OpUnreserve (a 1%nat) (dec_pod r 2)
   | 6 => OpMigrate (dec_pod r 3) (a 1%nat) (a 2%nat)
-  | 7 => OpQuotaUpdate (mkQ (a 1%nat) (a 2%nat) (zb (a 3%nat)) (zb (a 4%nat))
-                            (a 5%nat, a 6%nat) (a 7%nat, a 8%nat))
+  | 7 => OpQuotaUpdate (dec_qshape r)
   | 8 => OpQuotaDelete (a 1%nat)
   | 9 => OpReset
   | _ => OpNode
@@ -51,14 +65,12 @@ Definition dec_op (r : list Z) : op :=
 Fixpoint dec_ops (k : nat) (l : list Z) : list op :=
   match k with
   | O => []
-  | S k' => dec_op (firstn 15 l) :: dec_ops k' (skipn 15 l)
+  | S k' => dec_op (firstn rec_len l) :: dec_ops k' (skipn rec_len l)
   end.
 
+(* the input without its leading D *)
 Definition decode (inp : list Z) : vec * vec * list op :=
-  match inp with
-  | a :: b :: c :: d :: k :: t => ((a, b), (c, d), dec_ops (Z.to_nat k) t)
-  | _ => (vzero, vzero, [])
-  end.
+  (dec_vec inp 0, dec_vec inp dim, dec_ops (Z.to_nat (nthZ inp (2 * dim))) (skipn (2 * dim + 1) inp)).
 
 (* ---------- observation ---------- *)
 
@@ -69,7 +81,7 @@ Fixpoint insert_by {A} (key : A -> Z) (x : A) (l : list A) : list A :=
   end.
 Definition sort_by {A} (key : A -> Z) (l : list A) : list A := fold_right (insert_by key) [] l.
 
-Definition vz (v : vec) : list Z := [fst v; snd v].
+Definition vz (v : vec) : list Z := vto_list v.
 
 Definition obs_q (s : state) (q : qshape) : list Z :=
   let r := st_r s (q_name q) in let u := st_u s (q_name q) in let ps := st_p s (q_name q) in
@@ -89,8 +101,7 @@ Definition obs_root (ro : rootacc) : list Z :=
 Definition xobserve (x : xstate) : list Z := observe (x_s x) ++ obs_root (x_root x).
 
 Definition dec_root (l : list Z) : rootacc * list Z :=
-  let v := fun i => (nthZ l i, nthZ l (i + 1)) in
-  (mkRoot (v 0%nat) (v 2%nat) (v 4%nat) (v 6%nat), skipn 8 l).
+  (mkRoot (dec_vec l 0) (dec_vec l dim) (dec_vec l (2 * dim)) (dec_vec l (3 * dim)), skipn (4 * dim) l).
 
 (* ---------- the property on the implementation's observable ---------- *)
 
@@ -122,11 +133,11 @@ Fixpoint dec_pods (h : list op) (k : nat) (l : list Z) : list pinfo * list Z :=
 
 Definition dec_q (h : list op) (l : list Z) : (qshape * racc * uacc * list pinfo * Z) * list Z :=
   let a := fun i => nthZ l i in
-  let v := fun i => (nthZ l i, nthZ l (i + 1)) in
-  let '(ps, r) := dec_pods h (Z.to_nat (a 27%nat)) (skipn 28 l) in
-  ((mkQ (a 0%nat) (a 1%nat) (zb (a 2%nat)) (zb (a 3%nat)) (v 4%nat) (v 6%nat),
-    mkR (v 8%nat) (v 10%nat) (v 12%nat) (v 14%nat) (v 16%nat),
-    mkU (v 18%nat) (v 20%nat) (v 22%nat) (v 24%nat), ps, a 26%nat), r).
+  let v := fun i => dec_vec l (4 + i * dim) in           (* the i-th vector of the block *)
+  let '(ps, r) := dec_pods h (Z.to_nat (a (5 + 11 * dim)%nat)) (skipn (6 + 11 * dim) l) in
+  ((mkQ (a 0%nat) (a 1%nat) (zb (a 2%nat)) (zb (a 3%nat)) (v 0%nat) (v 1%nat),
+    mkR (v 2%nat) (v 3%nat) (v 4%nat) (v 5%nat) (v 6%nat),
+    mkU (v 7%nat) (v 8%nat) (v 9%nat) (v 10%nat), ps, a (4 + 11 * dim)%nat), r).
 
 Definition snapshot_state (qs : list (qshape * racc * uacc * list pinfo * Z)) : state :=
   fold_right (fun x st => let '(q, r, u, ps, _) := x in
@@ -168,7 +179,7 @@ Fixpoint check_steps (fuel : nat) (sh0 : list qshape) (s : state) (done rest : l
                      else if negb (shapes_eqb (st_sh snap) (spec_shapes sh0 h)) then 14
                           (* 14: a reported quota attribute is not that of the last delivered object *)
                      else if negb (state_code snap =? 0) then state_code snap
-                     else if Nat.ltb (length obs') 8 then 99                   (* the root entry is missing *)
+                     else if Nat.ltb (length obs') (4 * dim) then 99                   (* the root entry is missing *)
                      else root_code snap ro in   (* 15-18: the root entry against the from-scratch sums *)
             if c =? 0 then check_steps f sh0 s' h t obs'' else c
         end
@@ -176,3 +187,5 @@ Fixpoint check_steps (fuel : nat) (sh0 : list qshape) (s : state) (done rest : l
   | _, _ => 0
   end.
 
+
+End WithDim.
